@@ -12,7 +12,11 @@ pub enum Spelling {
     Dot,
     DotDot,
     Absolute,
+    /// absolute but not canonical: `<prefix>/d/../<target>`
+    AbsoluteDotDot,
     ViaSymlink,
+    /// absolute through a symlink: `<prefix>/l.zy`, `<prefix>/dl/e.zy`
+    AbsoluteViaSymlink,
     Numbered,
 }
 
@@ -23,7 +27,9 @@ impl Spelling {
             | Spelling::Dot => "dot",
             | Spelling::DotDot => "dotdot",
             | Spelling::Absolute => "absolute",
+            | Spelling::AbsoluteDotDot => "absolute-dotdot",
             | Spelling::ViaSymlink => "symlink",
+            | Spelling::AbsoluteViaSymlink => "absolute-symlink",
             | Spelling::Numbered => "numbered",
         }
     }
@@ -33,7 +39,9 @@ impl Spelling {
             | "dot" => Spelling::Dot,
             | "dotdot" => Spelling::DotDot,
             | "absolute" => Spelling::Absolute,
+            | "absolute-dotdot" => Spelling::AbsoluteDotDot,
             | "symlink" => Spelling::ViaSymlink,
+            | "absolute-symlink" => Spelling::AbsoluteViaSymlink,
             | "numbered" => Spelling::Numbered,
             | _ => return None,
         })
@@ -172,6 +180,12 @@ fn spell(side: &Side, holder: usize, import: &ImportRef) -> String {
             }
         }
         | Spelling::Absolute => format!("{}/{}", side.prefix(), target),
+        | Spelling::AbsoluteDotDot => format!("{}/d/../{}", side.prefix(), target),
+        | Spelling::AbsoluteViaSymlink => match import.slot {
+            | SLOT_A => format!("{}/l.zy", side.prefix()),
+            | SLOT_E => format!("{}/dl/e.zy", side.prefix()),
+            | _ => format!("{}/{}", side.prefix(), target),
+        },
         | Spelling::ViaSymlink => {
             let through = match import.slot {
                 | SLOT_A => Some("l.zy".to_string()),
@@ -201,10 +215,13 @@ fn pick_spelling(rng: &mut Rng, holder: usize, target: usize, palette: &Palette)
         // `.zydeco-input-1` is reached by number from the world directory, by path otherwise
         return if !in_subdirectory(holder) && rng.chance(2, 3) { Spelling::Numbered } else { Spelling::Plain };
     }
-    let mut options = vec![Spelling::Plain, Spelling::Plain, Spelling::Dot, Spelling::DotDot, Spelling::Absolute];
+    let mut options = vec![
+        Spelling::Plain, Spelling::Plain, Spelling::Dot, Spelling::DotDot, Spelling::Absolute, Spelling::AbsoluteDotDot,
+    ];
     if palette.symlinks && (target == SLOT_A || target == SLOT_E) {
         options.push(Spelling::ViaSymlink);
         options.push(Spelling::ViaSymlink);
+        options.push(Spelling::AbsoluteViaSymlink);
     }
     rng.pick(&options).clone()
 }
